@@ -5,6 +5,13 @@ from evalgen import lit, path_expr
 import c03
 
 
+WITNESSES = [("sort", "[sort | .[] | path]", "[3,1,2]", "[[1],[2],[0]]"), ("sort_by", "[sort_by(.) | .[] | path]", "[3,1,2]", "[[1],[2],[0]]"),
+             ("reverse", "[reverse | .[] | path]", "[1,2]", "[[1],[0]]"), ("slice", "[.[1:3] | .[] | path]", "[1,2,3]", "[[1],[2]]"),
+             ("map", "[map(.) | .[] | path]", '{"c":1}', '[["c"]]'), ("filter", "[filter(. != 1) | .[] | path]", "[1,2,3]", "[[1],[2]]"),
+             ("add", "[. + [9] | .[] | path]", "[1]", "[[0],[0]]"), ("collect", "[[.[1], .[0]] | .[] | path]", "[1,2]", "[[1],[0]]"),
+             ("unique", "[unique | .[] | path]", "[1,1,2]", "[[0],[2]]"), ("flatten", "[flatten | .[] | path]", "[[1],[2]]", "[[0],[0]]")]
+
+
 def run(chk):
     thorough = chk.tier == "thorough"
     proved, plog = chk.prove("Props/C16.v")
@@ -86,6 +93,12 @@ def run(chk):
                 if nviol <= 5:
                     chk.violation({"kind": "eval", "expr": evalgen.render(cases[off + i][0]), "doc": d, "impl": got.decode("utf-8", "replace"),
                                    "expect": want.decode("utf-8", "replace")}, True, "children of a rebuilt container report the wrong path")
+    # the recorded witnesses are replayed on every run (a finding that no longer reproduces prints nothing)
+    wout = evalcheck.impl_eval([(e, json.loads(d)) for op, e, d, bad in WITNESSES])
+    for (op, e, d, bad), b in zip(WITNESSES, wout):
+        res = evalcheck.results_of(b)
+        if res and res[0] == evalcheck.ser(json.loads(bad)):
+            chk.known_finding("stale-key-" + op, "%s on %s -> %s" % (e, d, bad))
     for op, (expr, d, got, want) in sorted(stale.items()):
         chk.known_finding("stale-key-" + op, "%s on %s -> %s, expected %s" % (expr, json.dumps(d), got.decode("utf-8", "replace").strip()[:120], want.decode("utf-8", "replace").strip()[:120]))
     chk.extra["distribution"] = {"fresh_docs": len(docs), "derived": len(derived), "retraversals": len(rt), "impl_outcomes": evalcheck.outcome_stats(impl),
